@@ -87,6 +87,17 @@ Proof.
 Qed.
 Print Assumptions unzip_lying_header_error.
 
+(* A nested archive that was unzipped is not accounted for (neither in the total nor in the count) because it is removed;
+   when its removal fails — anywhere in the nesting — the extraction reports an error instead of success. *)
+Theorem unzip_removal_failure_error : forall lim asize rd es,
+  forallb wfb es = true ->
+  forallb (removed lim) es = false ->
+  r_kind (unzip_topF generated lim asize rd es) <> None.
+Proof.
+  intros lim asize rd es Hwf Hl. rewrite unzip_top_generated. intros K. rewrite (top_removed lim asize rd es Hwf K) in Hl. discriminate.
+Qed.
+Print Assumptions unzip_removal_failure_error.
+
 (* Success means that everything was extracted: the disk holds exactly the archive's footprint. *)
 Theorem unzip_success_complete : forall lim asize rd es,
   forallb wfb es = true ->
@@ -112,9 +123,9 @@ Proof. intros lim asize es. rewrite unzip_top_generated. exact (top_exceeding_re
 Print Assumptions unzip_refusal_kind.
 
 (* ---- non-vacuity: the premises are satisfiable and the bounds are tight ---- *)
-Definition inner : list entry := [EFile 0 false 7 7 true true Plain []; EDir 1; EFile 2 false 5 5 true true Plain []].
+Definition inner : list entry := [EFile 0 false 7 7 true true Plain true []; EDir 1; EFile 2 false 5 5 true true Plain true []].
 Definition outer : list entry :=
-  [EFile 0 false 3 3 true true Plain []; EFile 1 true 300 300 true true GoodZip inner; EFile 0 true 4 4 true true Plain []].
+  [EFile 0 false 3 3 true true Plain true []; EFile 1 true 300 300 true true GoodZip true inner; EFile 0 true 4 4 true true Plain true []].
 
 (* exact limits: 19 bytes, 4 files (plus one directory entry counted), depth 1+1+2 = 4, largest file = the nested archive *)
 Example c03_exact_limits_pass :
@@ -136,6 +147,12 @@ Example c03_lying_header_refused :
 Proof. vm_compute. repeat split; reflexivity. Qed.
 (* a header declaring 2^63 bytes (negative as int64) slips under every per-file limit but writes nothing and is refused *)
 Example c03_wrapped_size_refused :
-  let r := unzip_topF generated (mkLim 10 10 10 (-1) false) 9 true [EFile 0 false (2 ^ 63) 9 true true Plain []] in
+  let r := unzip_topF generated (mkLim 10 10 10 (-1) false) 9 true [EFile 0 false (2 ^ 63) 9 true true Plain true []] in
   r_kind r = Some Other /\ r_writes r = [mkWr (2 ^ 63) 0].
+Proof. vm_compute. repeat split; reflexivity. Qed.
+(* the removal of the unzipped nested archive fails: an error, and the archive (300 B) is still on disk *)
+Example c03_removal_failure_refused :
+  let es := [EFile 0 true 300 300 true true GoodZip false inner] in
+  let r := unzip_topF generated (mkLim 300 12 3 (-1) true) 300 true es in
+  r_kind r = Some Other /\ files_total (r_nodes r) = 312 /\ forallb (removed (mkLim 300 12 3 (-1) true)) es = false.
 Proof. vm_compute. repeat split; reflexivity. Qed.
